@@ -140,18 +140,40 @@ func checkC07(c *Ctx) {
 	for _, fn := range fns {
 		ir.EachInstr(fn, func(_ *ssa.BasicBlock, _ int, in ssa.Instruction) {
 			call, ok := in.(*ssa.Call)
-			if !ok || ir.CallName(call) != "(*encoding/json.Decoder).Decode" || !flow.InCycle(call.Block()) {
+			if !ok || !flow.InCycle(call.Block()) {
 				return
 			}
+			decArg := 0
+			errVals := []ssa.Value{call}
+			if ir.CallName(call) != "(*encoding/json.Decoder).Decode" {
+				// a frame helper `func(dec *json.Decoder) (T, error)` that decodes once and returns the decoder's error
+				i, isProd := frameProducer(c, ir.StaticCallee(call))
+				if !isProd || i >= len(call.Call.Args) {
+					return
+				}
+				decArg = i
+				errVals = nil
+				for _, r := range *call.Referrers() {
+					if ex, ok := r.(*ssa.Extract); ok && ex.Index == call.Call.Signature().Results().Len()-1 {
+						errVals = append(errVals, ex)
+					}
+				}
+			}
 			// decoder held in a field (long-lived), not created per iteration
-			if _, _, isField := ir.LoadedField(call.Call.Args[0]); !isField {
+			if _, _, isField := ir.LoadedField(call.Call.Args[decArg]); !isField {
 				return
 			}
 			nDec++
 			// the error edge
 			var ifi *ssa.If
 			errSucc := 0
-			for _, r := range *call.Referrers() {
+			var errRefs []ssa.Instruction
+			for _, ev := range errVals {
+				if ev.Referrers() != nil {
+					errRefs = append(errRefs, *ev.Referrers()...)
+				}
+			}
+			for _, r := range errRefs {
 				if bin, ok := r.(*ssa.BinOp); ok {
 					if _, op, ok := nilCompare(bin); ok {
 						for _, rr := range *bin.Referrers() {
@@ -738,6 +760,64 @@ func c07AnswerNonNil(c *Ctx, fns []*ssa.Function) {
 									continue
 								}
 								fv := cf.FreeVars[bi]
+								// the cell is handed to an attempt helper `func(…, out **T) error { *out, err = f(); return err }`
+								// whose error the closure returns
+								for _, fr := range *fv.Referrers() {
+									hc, ok := fr.(*ssa.Call)
+									if !ok {
+										continue
+									}
+									h := ir.StaticCallee(hc)
+									if h == nil || !c.P.IsLib(h) || h.Blocks == nil {
+										continue
+									}
+									for ai, a := range hc.Call.Args {
+										if a != ssa.Value(fv) || ai >= len(h.Params) {
+											continue
+										}
+										n++
+										good := false
+										p := h.Params[ai]
+										for _, pr := range *p.Referrers() {
+											st, ok := pr.(*ssa.Store)
+											if !ok || st.Addr != ssa.Value(p) {
+												continue
+											}
+											ex, ok := st.Val.(*ssa.Extract)
+											if !ok || ex.Index != 0 {
+												continue
+											}
+											call, ok := ex.Tuple.(*ssa.Call)
+											if !ok {
+												continue
+											}
+											okCallee := true
+											for _, cal := range ir.Callees(c.G, call) {
+												if !isAnswerFn(cal) || mayNilNil[cal] {
+													okCallee = false
+												}
+											}
+											retErr := false
+											ir.EachInstr(h, func(_ *ssa.BasicBlock, _ int, in ssa.Instruction) {
+												if rr, ok := in.(*ssa.Return); ok && len(ir.Results(rr)) == 1 {
+													if e2, ok := unspill(ir.Results(rr)[0]).(*ssa.Extract); ok && e2.Tuple == ex.Tuple && e2.Index == 1 {
+														retErr = true
+													}
+												}
+											})
+											passesOn := false
+											ir.EachInstr(cf, func(_ *ssa.BasicBlock, _ int, in ssa.Instruction) {
+												if rr, ok := in.(*ssa.Return); ok && len(ir.Results(rr)) == 1 && unspill(ir.Results(rr)[0]) == ssa.Value(hc) {
+													passesOn = true
+												}
+											})
+											good = okCallee && retErr && passesOn
+										}
+										if !good {
+											okAll = false
+										}
+									}
+								}
 								for _, fr := range *fv.Referrers() {
 									st, ok := fr.(*ssa.Store)
 									if !ok || st.Addr != ssa.Value(fv) {
@@ -982,6 +1062,19 @@ func c07HeaderValuesValidated(c *Ctx, fns []*ssa.Function) {
 			// a trimmed header value is still a header value
 			if n := ir.CallName(x); strings.HasPrefix(n, "strings.Trim") && len(x.Call.Args) > 0 {
 				return safe(fn, x.Call.Args[0], d+1)
+			}
+			// a library helper all of whose results are safe (sessionIDFrom(resp) returning the header value)
+			if sc := ir.StaticCallee(x); sc != nil && c.P.IsLib(sc) && sc.Blocks != nil && sc.Signature.Results().Len() == 1 {
+				for _, b := range sc.Blocks {
+					if ret, ok := b.Instrs[len(b.Instrs)-1].(*ssa.Return); ok {
+						for _, res := range ir.Results(ret) {
+							if !safe(sc, unspill(res), d+1) {
+								return false
+							}
+						}
+					}
+				}
+				return true
 			}
 		case *ssa.Phi:
 			for _, e := range x.Edges {
@@ -1450,4 +1543,49 @@ func rejectsControlBytes(c *Ctx, pred *ssa.Function) bool {
 		})
 	}
 	return lo && hi
+}
+
+// frameProducer: fn decodes exactly one value from a *json.Decoder parameter (outside any loop) and its last result is
+// that Decode's error: `func nextFrame(dec *json.Decoder) (json.RawMessage, error)`. Returns the decoder's parameter index.
+func frameProducer(c *Ctx, fn *ssa.Function) (int, bool) {
+	if fn == nil || !c.P.IsLib(fn) || fn.Blocks == nil {
+		return 0, false
+	}
+	res := fn.Signature.Results()
+	if res.Len() < 1 || ir.TypeStr(res.At(res.Len()-1).Type()) != "error" {
+		return 0, false
+	}
+	var dec *ssa.Call
+	n := 0
+	ir.EachInstr(fn, func(_ *ssa.BasicBlock, _ int, in ssa.Instruction) {
+		if call, ok := in.(*ssa.Call); ok && ir.CallName(call) == "(*encoding/json.Decoder).Decode" {
+			dec = call
+			n++
+		}
+	})
+	if n != 1 || flow.InCycle(dec.Block()) {
+		return 0, false
+	}
+	p, ok := dec.Call.Args[0].(*ssa.Parameter)
+	if !ok {
+		return 0, false
+	}
+	returnsErr := false
+	ir.EachInstr(fn, func(_ *ssa.BasicBlock, _ int, in ssa.Instruction) {
+		if ret, ok := in.(*ssa.Return); ok {
+			rs := ir.Results(ret)
+			if len(rs) > 0 && unspill(rs[len(rs)-1]) == ssa.Value(dec) {
+				returnsErr = true
+			}
+		}
+	})
+	if !returnsErr {
+		return 0, false
+	}
+	for i, q := range fn.Params {
+		if q == p {
+			return i, true
+		}
+	}
+	return 0, false
 }
